@@ -296,6 +296,39 @@ def listKeyIDs (name : Bytes) (v : JVal) : Option (List Bytes) :=
   | .null => some []
   | _ => none
 
+/-! ## The text gate (signing.go: checkStrictJSON / checkStrictValue / checkStrictString)
+
+`SignJSON` and `VerifyJSON` begin by refusing every message its readers would not all understand the same
+way: encoding/json keeps the LAST of two members with one name, gjson / sjson see the FIRST; `CompactJSON`
+DROPS the escape of a lone surrogate where the decoders read U+FFFD; encoding/json rewrites invalid UTF-8
+in member names to U+FFFD.  The gate walks the gjson view of the whole message (every depth, the
+`signatures` and `unsigned` members included): every string and member name must be valid UTF-8 whose
+surrogate escapes come in proper pairs (`checkStrictString` = `rawStringWellFormed`), and no object may have
+two members whose decoded names are equal.  What passes is exactly the domain C01 quantifies over, so the
+value-level functions above are only ever run on values every reader agrees on. -/
+
+/-- `checkStrictJSON(message) == nil` -/
+def strictJSON (t : Bytes) : Bool :=
+  match parse t with
+  | none => false                       -- gjson.ValidBytes
+  | some p => p.wellFormed && p.noDupKeys
+
+/-- the error of the gate (any error of SignJSON / VerifyJSON before the signature is looked at) -/
+def errAmbiguous : Err := .other "json"
+
+/-- Model of `SignJSON(name, kid, sk, message)` on the message TEXT: the gate, then `signJSON` on the value
+    the text denotes. -/
+def signJSONText (S : SigScheme) (name kid : Bytes) (sk : S.SK) (t : Bytes) : Except Err JVal :=
+  match parse t with
+  | none => .error errAmbiguous
+  | some p => if !(p.wellFormed && p.noDupKeys) then .error errAmbiguous else signJSON S name kid sk p.toJVal
+
+/-- Model of `VerifyJSON(name, kid, pk, message)` on the message TEXT. -/
+def verifyJSONText (S : SigScheme) (name kid pk : Bytes) (t : Bytes) : Except Err Unit :=
+  match parse t with
+  | none => .error errAmbiguous
+  | some p => if !(p.wellFormed && p.noDupKeys) then .error errAmbiguous else verifyJSON S name kid pk p.toJVal
+
 /-! ## Specification (what C02 demands, written without the glue)
 
 `Spec.signJSON`: the object with the signer's entry set under the exact key `signatures`, every other
@@ -364,6 +397,18 @@ def accepts (S : SigScheme) (name kid pk : Bytes) (v : JVal) : Bool :=
     | some sig => S.sigSizeOk sig && S.pkSizeOk pk && S.verify pk (payload o) sig
     | none => false
   | _ => false
+
+/-- Do the SIGNED members of a parsed message (everything but the members named `signatures` / `unsigned`)
+    denote one definite value for every reader?  Distinct member names at every depth, every string valid
+    UTF-8 with properly paired surrogate escapes.  Where this fails the property's "any change to any member
+    ... fails verification" cannot hold for all readers at once, so the specification demands refusal
+    (signing: no signature; verification: not accepted).  Ambiguities confined to `signatures` / `unsigned`
+    (a second `signatures` member, a duplicate inside `unsigned`) are outside the property's text. -/
+def definitePayload : PVal → Bool
+  | .obj kvs =>
+    let pm := kvs.filter (fun m => m.2.1 != kSignatures && m.2.1 != kUnsigned)
+    noDupIn (pm.map (·.2.1)) && wellFormedMembers pm && noDupKeysMembers pm
+  | p => p.wellFormed && p.noDupKeys
 
 end Spec
 
